@@ -30,6 +30,9 @@ CURATED = ["a", "Z", "0", " ", "\t", "\r", "\n", "\r\n", "é", "ß", "中", "€
            "\x00", "\x7f", "﻿", "\\", "%", "{", "[", "]", "«"]
 
 
+BLANKS = ["", "", " ", "   ", "\t", " \t ", "\r", "\u00a0", "\u2003 ", "\x0b", "\x0c"]
+
+
 def gen_body(rng) -> str:
     n = rng.choice([0, 1, 1, 2, 3, 5, 8, 12])
     out = []
@@ -56,6 +59,12 @@ def gen_case(rng, idx: int, nt=(1, 6), nw=(0, 5), method=None) -> dict:
                 # an empty write: nothing to account for, and it must not create a section
                 writes.append({"kind": kind, "id": None, "text": "", "end": "", "flush": rng.random() < 0.5})
                 continue
+            if rng.random() < 0.12:
+                # a write without any token: blanks only (a bare print(), spaces, a tab, "\r\n", exotic spaces) — it must be kept
+                # byte for byte, also when it is everything the task wrote on that stream
+                writes.append({"kind": kind, "id": None, "text": rng.choice(BLANKS), "end": rng.choice(["\n", "", "\r\n", "\n"]),
+                               "flush": rng.random() < 0.5})
+                continue
             pid += 1
             if rng.random() < 0.015:
                 # more than 64 KiB of multi-byte text in one write (block-wise readers must not split a character)
@@ -66,6 +75,14 @@ def gen_case(rng, idx: int, nt=(1, 6), nw=(0, 5), method=None) -> dict:
             end = rng.choice(["\n", "\n", "", "\r\n", "\r"]) if kind in ("print", "eprint") else rng.choice(["", "", "\n"])
             writes.append({"kind": kind, "id": pid, "text": f"@@{pid}@[{gen_body(rng)}]@{pid}@@", "end": end,
                            "flush": rng.random() < 0.5})
+        if rng.random() < 0.12:
+            # whitespace is ALL this task writes on stdout / stderr (tokens, if any, only on the other stream)
+            blank_err = rng.random() < 0.5
+            writes = [w for w in writes if is_err(w) != blank_err]
+            for _ in range(rng.randint(1, 3)):
+                kind = rng.choice([k for k in KINDS if (k in ERR_KINDS) == blank_err])
+                writes.insert(rng.randint(0, len(writes)), {"kind": kind, "id": None, "text": rng.choice(BLANKS[2:]),
+                                                            "end": rng.choice(["\n", "", "\r\n"]), "flush": rng.random() < 0.5})
         # a quarter of the tasks end abnormally after writing: by an exception or by sys.exit()
         tasks.append({"name": f"task_t{t}", "writes": writes, "fail": rng.choice([True, True, "exit"]) if rng.random() < 0.25 else False})
     return {"idx": idx, "tasks": tasks, "method": method or rng.choice(METHODS), "hashseed": rng.randrange(0, 1000),
@@ -333,6 +350,12 @@ def corpus_c14() -> list:
         {"name": "task_t5", "fail": True, "writes": [w("ewrite", 13, "warned, no newline")]},
         {"name": "task_t7", "fail": "exit", "writes": [w("print", 22, "leaving through sys.exit", "\n"), w("os2", 23, "bye")]},
         {"name": "task_t8", "fail": False, "writes": [w("print", 24, "中" * 30000, "\n"), w("os1", 25, "é" * 40001), w("eprint", 26, "x" + "😀" * 20000, "")]},
+        # whitespace-only output: a bare print(), blanks without newline, "\r\n" through os.write, a lone tab from a child
+        {"name": "task_t9", "fail": False, "writes": [{"kind": "print", "id": None, "text": '', "end": '\n', "flush": False}]},
+        {"name": "task_t10", "fail": True, "writes": [{"kind": "owrite", "id": None, "text": '   ', "end": '', "flush": False}, {"kind": "ewrite", "id": None, "text": ' \t', "end": '', "flush": False}]},
+        {"name": "task_t11", "fail": False, "writes": [{"kind": "os1", "id": None, "text": '\r\n', "end": '', "flush": False}, w("eprint", 27, "token on the other stream", "\n")]},
+        {"name": "task_t12", "fail": "exit", "writes": [{"kind": "child1", "id": None, "text": '\t', "end": '', "flush": False}, {"kind": "os2", "id": None, "text": '\n', "end": '', "flush": False}]},
+        {"name": "task_t13", "fail": False, "writes": [{"kind": "print", "id": None, "text": '  ', "end": '\n', "flush": False}, w("print", 28, "between blanks", "\n"), {"kind": "os1", "id": None, "text": ' \r\n', "end": '', "flush": False}, {"kind": "print", "id": None, "text": '', "end": '\n', "flush": False}]},
         {"name": "task_t6", "fail": False, "writes": [w("owrite", 14, "py unflushed "), w("os1", 15, "fd "), w("owrite", 16, "py again"),
                                                        w("child1", 17, "kid"), w("print", 18, "tail", "\n"),
                                                        w("ewrite", 19, "e-py "), w("os2", 20, "e-fd "), w("ewrite", 21, "e-py2")]},
